@@ -513,7 +513,7 @@ func propsOfMismatch0(m Mismatch, ev map[string]any) []string {
 		case m.Info == "invalid":
 			return []string{docProp()}
 		case m.Info == "mfail":
-			return []string{"C17"}
+			return []string{"C17", "C15"}
 		case m.St == "equal":
 			ps := []string{"C01"}
 			if m.Got == "updated" || m.Got == "added" {
@@ -558,7 +558,7 @@ func propsOfMismatch0(m Mismatch, ev map[string]any) []string {
 		return []string{docProp()}
 	case "json.lossy":
 		return []string{"C14"}
-	case "buf.modified":
+	case "buf.modified", "doc.mismatch":
 		return []string{"C15"}
 	case "nowrite":
 		ps := []string{}
